@@ -10,7 +10,7 @@ TABLE_NAMES = ["lorom.b2p", "hirom.b2p", "exhirom.b2p", "sa1rom.b2p", "lorom.p2b
                "sa1rom.p2b", "system.read", "system.write"]
 
 ISSUE_PROP = {
-    "nonuniform": "C05", "range": "C05", "erridentity": "C05", "errresult": "C05", "panic": "C05",
+    "nonuniform": "C05", "unstable": "C05", "range": "C05", "erridentity": "C05", "errresult": "C05", "panic": "C05",
     "c04_rightinverse": "C04", "c04_collapse": "C04",
     "c11_write": "C11", "c11_agree": "C11", "system_probe": "C11", "system_create": "C11",
 }
@@ -86,8 +86,8 @@ def run(prop, tier, replay):
         nev_s, bads_s, samples_s = record_and_validate(ck, vh, ["sysseq", "record"], "SystemTrace", "SystemTrace.cfg", "sys.ndjson", nchunks, per)
         for b in bads_s:
             ev = b["ev"]
-            ck.violation("mirror sequence chunk %d line %d: bus %s at $%06X %s %d but the cell LoROM designates (%s) holds another value" % (
-                b["chunk"], b["line"], ev["k"], ev.get("a", 0), "returned" if ev["k"] == "rd" else "shows", ev["v"], b.get("cell")), b)
+            ck.violation("mirror sequence chunk %d line %d: bus %s at $%06X %s %s but the cell LoROM designates (%s) holds another value" % (
+                b["chunk"], b["line"], ev["k"], ev.get("a", 0), "returned" if ev["k"] in ("rd", "rd24") else "shows", ev["v"], b.get("cell")), b)
         for e in samples_s[:5]:
             ck.sample(e)
         ck.add_part("mirror-coherence sequences (SystemTrace.tla)", kind="tlc-trace", events=nev_s, groups=nchunks * per)
